@@ -39,7 +39,7 @@ func streamCodec(r *simrt.Rand, p *Plan) {
 
 // genStreamClient scripts one stream and the client goroutine that drives it.
 func genStreamClient(r *simrt.Rand, p *Plan, conn int, big *int) {
-	sp := StreamPlan{Conn: conn, RBuf: []int{0, 0, 3, 17, 100, 5000, 70000}[r.Intn(7)]}
+	sp := StreamPlan{Conn: conn, RBuf: []int{0, 0, 3, 17, 100, 5000, 70000}[r.Intn(7)], Empty: []int{0, 0, 2, 3}[r.Intn(4)]}
 	switch r.Intn(4) {
 	case 0: // client writes first, server echoes
 		sp.Echo = true
